@@ -125,6 +125,23 @@ class FObj(object):
         self.attrs = {}
 
 
+class _LibModule(object):
+    """collections / functools / operator / itertools: the pure helpers among their members are folded"""
+
+    def __init__(self, name):
+        self.name = name
+
+
+class _Partial(object):
+    """functools.partial / operator.methodcaller / attrgetter / itemgetter as values"""
+
+    def __init__(self, kind, *data, **kw):
+        self.kind, self.data, self.kw = kind, data, kw
+
+
+_OPERATOR_FUNCS = {"add", "sub", "mul", "mod", "eq", "ne", "lt", "le", "gt", "ge", "is_", "is_not", "not_", "truth", "contains", "getitem", "concat"}
+
+
 class _ReModule(object):
     """the `re` module: pure functions of constant strings are folded natively"""
 
@@ -294,6 +311,9 @@ class _Frame(object):
             return
         if isinstance(st, ast.Return):
             raise _Return(self.expr(st.value) if st.value is not None else None)
+        if isinstance(st, ast.FunctionDef):
+            self.env[st.name] = self.closure(st)
+            return
         if isinstance(st, ast.Assign):
             v = self.expr(st.value)
             for t in st.targets:
@@ -525,7 +545,7 @@ class _Frame(object):
             r = self.f.p.lookup(self.m.name, e.id)
             if r is not None:
                 return self._from_binding(r, e)
-        if e.id in ("str", "issubclass", "super", "isinstance", "format", "next", "iter", "hasattr", "getattr", "type") or e.id in PURE_BUILTINS:
+        if e.id in ("str", "issubclass", "super", "isinstance", "format", "next", "iter", "hasattr", "getattr", "type", "filter", "map") or e.id in PURE_BUILTINS:
             return _Bound("builtin", None, e.id)
         self.unsupported(e, "name")
 
@@ -550,6 +570,13 @@ class _Frame(object):
                 return _Bound("builtin", None, "chain")
             if d == "re":
                 return _ReModule()
+            if d in ("collections", "functools", "operator", "itertools"):
+                return _LibModule(d)
+            if d in ("collections.OrderedDict",):
+                return _Bound("builtin", None, "dict")
+            if d in ("functools.partial", "functools.reduce", "operator.methodcaller", "operator.attrgetter", "operator.itemgetter",
+                     "collections.namedtuple", "typing.NamedTuple") or (d.startswith("operator.") and d[9:] in _OPERATOR_FUNCS):
+                return _Bound("lib", None, d)
             if d.startswith("re.") and d[3:] in SAFE_RE_FUNCS:
                 return _Bound("re", None, d[3:])
             self.unsupported(node, "external name %s" % d)
@@ -586,6 +613,16 @@ class _Frame(object):
             if owner is None:
                 self.unsupported(e, "super attribute")
             return self.f._attr_value(owner, raw, base.cls)
+        if isinstance(base, _LibModule):
+            d = "%s.%s" % (base.name, a)
+            if d == "collections.OrderedDict":
+                return _Bound("builtin", None, "dict")
+            if d == "itertools.chain":
+                return _Bound("builtin", None, "chain")
+            if d in ("functools.partial", "functools.reduce", "operator.methodcaller", "operator.attrgetter", "operator.itemgetter",
+                     "collections.namedtuple") or (base.name == "operator" and a in _OPERATOR_FUNCS):
+                return _Bound("lib", None, d)
+            self.unsupported(e, "%s" % d)
         if isinstance(base, _ReModule):
             if a in SAFE_RE_FUNCS:
                 return _Bound("re", None, a)
@@ -607,6 +644,8 @@ class _Frame(object):
                 return base[base.fields.index(a)]
             if isinstance(base, FObj) and a in base.attrs:
                 return base.attrs[a]
+            if base.ci is None:
+                self.unsupported(e, "attribute %s of a namedtuple" % a)
             owner, raw = self.f.p.class_attr_def(base.ci, a)
             if isinstance(raw, FuncInfo):
                 if raw.kind == "property":
@@ -642,6 +681,79 @@ class _Frame(object):
         if isinstance(base, _Bound) and base.kind == "builtin" and base.name == "str" and a in ("maketrans", "join", "format"):
             return _Bound("strstatic", None, a)
         self.unsupported(e, "attribute base %r" % (base,))
+
+    def attr_of(self, base, a, node):
+        """attribute of an evaluated value (what e_Attribute does, on values)"""
+        holder = ast.Attribute(value=ast.Name(id="__v__", ctx=ast.Load()), attr=a, ctx=ast.Load())
+        ast.copy_location(holder, node)
+        ast.copy_location(holder.value, node)
+        saved = self.env.get("__v__", self)
+        self.env["__v__"] = base
+        try:
+            return self.e_Attribute(holder)
+        finally:
+            if saved is self:
+                self.env.pop("__v__", None)
+            else:
+                self.env["__v__"] = saved
+
+    def format_str(self, fmt, args, kwargs, node):
+        """str.format with attribute / index fields resolved on the folder's own values"""
+        import string
+
+        out = []
+        auto = 0
+        try:
+            for lit, field, spec, conv in string.Formatter().parse(fmt):
+                out.append(lit)
+                if field is None:
+                    continue
+                import _string
+
+                first, it = _string.formatter_field_name_split(field)
+                if first == "":
+                    v = args[auto]
+                    auto += 1
+                elif isinstance(first, int):
+                    v = args[first]
+                else:
+                    v = kwargs[first]
+                for is_attr, key in it:
+                    v = self.attr_of(v, key, node) if is_attr else v[key]
+                if spec and ("{" in spec):
+                    self.unsupported(node, "nested format spec")
+                if isinstance(v, SeqVal):
+                    v = v.s
+                if isinstance(v, Enzyme):
+                    v = v.name
+                if not isinstance(v, (str, int, float, tuple, list, type(None), bool)):
+                    self.unsupported(node, "format of %r" % (v,))
+                if conv == "r":
+                    v = repr(v)
+                elif conv in ("s", "a"):
+                    v = str(v)
+                out.append(format(v, spec or ""))
+        except AnalysisError:
+            raise
+        except Exception as ex:
+            self.unsupported(node, "str.format raised %s:" % type(ex).__name__)
+        return "".join(out)
+
+    def closure(self, st):
+        a = st.args
+        if a.vararg or a.kwarg or a.kwonlyargs or st.decorator_list:
+            self.unsupported(st, "nested function signature")
+        params = [x.arg for x in a.posonlyargs + a.args]
+        dvals = [self.expr(d) for d in a.defaults]
+        return _Partial("closure", st, self, params, dict(zip(params[len(params) - len(dvals):], dvals)))
+
+    def e_Lambda(self, e):
+        a = e.args
+        if a.vararg or a.kwarg or a.kwonlyargs:
+            self.unsupported(e, "lambda signature")
+        params = [x.arg for x in a.posonlyargs + a.args]
+        dvals = [self.expr(d) for d in a.defaults]
+        return _Partial("lambda", e, self, params, dict(zip(params[len(params) - len(dvals):], dvals)))
 
     def instantiate(self, ci, args, kwargs, node):
         """value classes of the repo used inside a structure(): namedtuple-based ones, and plain classes whose
@@ -805,6 +917,114 @@ class _Frame(object):
                 kwargs.update(self.expr(k.value))
             else:
                 kwargs[k.arg] = self.expr(k.value)
+        return self.apply(fn, args, kwargs, e)
+
+    def apply(self, fn, args, kwargs, e):
+        """apply a callable value to evaluated arguments"""
+        if isinstance(fn, _Partial):
+            k = fn.kind
+            if k == "partial":
+                kw = dict(fn.kw)
+                kw.update(kwargs)
+                return self.apply(fn.data[0], list(fn.data[1:]) + list(args), kw, e)
+            if k == "methodcaller" and len(args) == 1:
+                return self.apply(self.attr_of(args[0], fn.data[0], e), list(fn.data[1:]), dict(fn.kw), e)
+            if k == "attrgetter" and len(args) == 1:
+                outs = []
+                for path in fn.data:
+                    v = args[0]
+                    for a in path.split("."):
+                        v = self.attr_of(v, a, e)
+                    outs.append(v)
+                return outs[0] if len(outs) == 1 else tuple(outs)
+            if k == "itemgetter" and len(args) == 1:
+                try:
+                    outs = [args[0][key] for key in fn.data]
+                except Exception:
+                    self.unsupported(e, "itemgetter")
+                return outs[0] if len(outs) == 1 else tuple(outs)
+            if k == "lambda":
+                lam, frame, params, defaults = fn.data
+                env = dict(frame.env)
+                env.update(defaults)
+                if len(args) > len(params):
+                    self.unsupported(e, "lambda arguments")
+                env.update(zip(params, args))
+                env.update(kwargs)
+                if any(p_ not in env for p_ in params):
+                    self.unsupported(e, "lambda arguments")
+                sub = _Frame(self.f, frame.m, env, frame.owner, frame.cls)
+                return sub.expr(lam.body)
+            if k == "closure":
+                st, frame, params, defaults = fn.data
+                env = dict(frame.env)
+                env.update(defaults)
+                if len(args) > len(params):
+                    self.unsupported(e, "nested function arguments")
+                env.update(zip(params, args))
+                env.update(kwargs)
+                if any(p_ not in env for p_ in params):
+                    self.unsupported(e, "nested function arguments")
+                sub = _Frame(self.f, frame.m, env, frame.owner, frame.cls)
+                try:
+                    sub.block(st.body)
+                except _Return as r:
+                    return r.value
+                return None
+            if k == "ntclass":
+                name, fields = fn.data
+                vals = list(args) + [None] * (len(fields) - len(args))
+                if len(args) > len(fields) or any(x not in fields for x in kwargs):
+                    self.unsupported(e, "namedtuple arguments")
+                for x, v in kwargs.items():
+                    vals[fields.index(x)] = v
+                o = FNT(vals)
+                o.ci, o.fields = None, tuple(fields)
+                return o
+            self.unsupported(e, "call of a %s object" % k)
+        if isinstance(fn, _Bound) and fn.kind == "lib":
+            d = fn.name
+            if d == "functools.partial" and args:
+                return _Partial("partial", *args, **kwargs)
+            if d in ("collections.namedtuple", "typing.NamedTuple") and len(args) >= 2 and isinstance(args[0], str):
+                spec = args[1]
+                fields = spec.replace(",", " ").split() if isinstance(spec, str) else [x[0] if isinstance(x, (list, tuple)) else x for x in spec]
+                return _Partial("ntclass", args[0], list(fields))
+            if d in ("operator.methodcaller", "operator.attrgetter", "operator.itemgetter") and args:
+                return _Partial(d.split(".")[-1], *args, **kwargs)
+            if d == "functools.reduce" and len(args) in (2, 3):
+                seq = self.iterate(args[1], e)
+                if len(args) == 3:
+                    acc = args[2]
+                elif seq:
+                    acc, seq = seq[0], seq[1:]
+                else:
+                    self.unsupported(e, "reduce of an empty sequence")
+                for x in seq:
+                    acc = self.apply(args[0], [acc, x], {}, e)
+                return acc
+            if d.startswith("operator."):
+                import operator as _op
+
+                a2 = [x.s if isinstance(x, SeqVal) else x for x in args]
+                if all(isinstance(x, (str, int, tuple, list, dict, type(None), bool)) for x in a2):
+                    try:
+                        return getattr(_op, d[9:])(*a2)
+                    except Exception:
+                        self.unsupported(e, d)
+                if d[9:] in ("is_", "is_not") and len(a2) == 2:
+                    return (a2[0] is a2[1]) == (d[9:] == "is_")
+            self.unsupported(e, d)
+        if isinstance(fn, _Bound) and fn.kind == "builtin" and fn.name in ("filter", "map") and args:
+            f = args[0]
+            seqs = [self.iterate(a, e) for a in args[1:]]
+            if fn.name == "filter" and len(seqs) == 1:
+                return [x for x in seqs[0] if (x if f is None else self.apply(f, [x], {}, e))]
+            if fn.name == "map" and seqs:
+                n = min(len(q) for q in seqs)
+                return [self.apply(f, [q[i] for q in seqs], {}, e) for i in range(n)]
+        if isinstance(fn, _Bound) and fn.kind == "native" and fn.name in ("format", "format_map") and isinstance(fn.target, str):
+            return self.format_str(fn.target, args if fn.name == "format" else [], kwargs if fn.name == "format" else (args[0] if args else {}), e)
         if isinstance(fn, ClassInfo):
             return self.instantiate(fn, args, kwargs, e)
         if not isinstance(fn, _Bound):
@@ -923,7 +1143,11 @@ def _nt_fields(frame, ci):
         return None
     for b in node.bases:
         if isinstance(b, ast.Call) and ast.unparse(b.func) in ("collections.namedtuple", "namedtuple", "typing.NamedTuple", "NamedTuple") and len(b.args) >= 2:
-            spec = ast.literal_eval(b.args[1]) if not isinstance(b.args[1], ast.Name) else None
+            try:
+                spec = ast.literal_eval(b.args[1]) if not isinstance(b.args[1], ast.Name) else None
+            except Exception:
+                spec = [el.elts[0].value for el in b.args[1].elts] if isinstance(b.args[1], (ast.List, ast.Tuple)) and all(
+                    isinstance(el, (ast.Tuple, ast.List)) and el.elts and isinstance(el.elts[0], ast.Constant) for el in b.args[1].elts) else None
             if isinstance(spec, str):
                 return spec.replace(",", " ").split()
             if isinstance(spec, (list, tuple)):
